@@ -53,6 +53,23 @@ def pattern_canon(repo: Repo, chk: Check) -> None:
     # the rule of C03 on the same function: bounds and columns selected by one predicate that rejects exactly bound == 1 (a dynamic bound
     # None is kept), nothing else about the map changes
     c03.drop_unit(repo, chk, rule="C19.pattern-canon", quals=("AccessPattern.canonicalize",), floor=3)
+    chk.rule("C19.collection-canon", "PatternCollection.canonicalize canonicalises every pattern by its OWN bounds (pattern.canonicalize() per element), it does not apply one "
+             "pattern's bounds to all of them", floor=1)
+    fc, flc = flow_of(repo, chk, c03.AP, "PatternCollection.canonicalize")
+    rets_c = [x for x in flc.stmts(ast.Return) if x.reachable and x.node.value is not None]
+    if not rets_c:
+        raise AnalysisError(f"{fc.where}: no return")
+    for n_, s_ in enumerate(rets_c, 1):
+        v = norm.primary(s_.expand(s_.node.value))
+        per = [g_ for g_ in ast.walk(v) if isinstance(g_, (ast.GeneratorExp, ast.ListComp)) and len(g_.generators) == 1 and isinstance(g_.generators[0].target, ast.Name)
+               and norm.match(T(f"{g_.generators[0].target.id}.canonicalize()"), g_.elt) is not None
+               and norm.any_match(["self", "self._patterns", "iter(self)", "self.patterns"], g_.generators[0].iter) is not None and not g_.generators[0].ifs]
+        shared = norm.contains(v, T("self.clear_unused_dims()")) or norm.contains(v, T("self.clear_unused_dims($b)"))
+        if not per and not shared:
+            raise AnalysisError(f"{s_.where()}: how the collection is canonicalised is not recognised: `{ast.unparse(v)[:100]}`")
+        chk.result(bool(per) and not shared, "C19.collection-canon", f"{fc.key}:return#{n_}", s_.where(), "each pattern is canonicalised on its own",
+                   "the collection is canonicalised with clear_unused_dims(), which drops the unit dimensions of ONE pattern's bounds from all patterns: patterns with their own bounds "
+                   "(templates, per-operand schedules) lose non-unit dimensions or keep unit ones")
     chk.rule("C19.inner-dims", "AccessPattern.inner_dims keeps the same trailing slice of the bounds and of the matrix columns and the original bias", floor=1)
     f, fl = flow_of(repo, chk, c03.AP, "AccessPattern.inner_dims")
     rets = [x for x in fl.stmts(ast.Return) if x.reachable and x.node.value is not None]
